@@ -115,6 +115,26 @@ def nested(R, snap, rnd):
     import gen_archives as G
     n = 250 if R.tier == "quick" else 2500
     cases = []
+    # fixed corpus: containers all of whose items carry decorative keys of the format (is_json is written by the dumper and
+    # read by no loader); every item is still the node its __loader__ says and must be audited as such
+    P = snap["protocol"]
+
+    def N(loader, m, k, i, **kw):
+        return {"__class__": k, "__module__": m, "__loader__": loader, "__id__": i, "is_json": True, **kw}
+    J = lambda i: {"__class__": "str", "__module__": "builtins", "__loader__": "JsonNode", "content": "1", "is_json": True, "__id__": i}   # noqa: E731
+    items = [N("TypeNode", "verif_canary_pkg", "Probe", 11), N("FunctionNode", "verif_canary_pkg", "probe_fn", 12),
+             N("OperatorFuncNode", "operator", "attrgetter", 13, attrs=N("TupleNode", "builtins", "tuple", 14, content=[J(15)])),
+             N("ObjectNode", "verif_canary_pkg.sub", "Other", 16)]
+    for loader, cls in (("ListNode", "list"), ("TupleNode", "tuple"), ("SetNode", "set")):
+        for k in range(len(items)):
+            content = [J(20), json.loads(json.dumps(items[k])), J(21)]
+            cases.append({"schema": {**N(loader, "builtins", cls, 1, content=content), "protocol": P, "_skops_version": "0.0"}, "members": [],
+                          "tspec": "none", "tseed": 0, "show": "all", "malformed": False, "wellformed": True, "notes": ["decorated items"]})
+    cases.append({"schema": {**N("DictNode", "builtins", "dict", 1, content={"a": json.loads(json.dumps(items[0])), "b": J(22)},
+                                 key_types=N("ListNode", "builtins", "list", 2, content=[N("TypeNode", "builtins", "str", 3), {"__id__": 3}])),
+                             "protocol": P, "_skops_version": "0.0"}, "members": [],
+                  "tspec": "none", "tseed": 0, "show": "all", "malformed": False, "wellformed": True, "notes": ["decorated items"]})
+    n += len(cases)
     while len(cases) < n:
         # current-protocol layouts only: older loaders ignore some keys of the layout the generator writes
         c = G.gen_case(rnd, malformed_p=0.0, protocols=(snap["protocol"], snap["protocol"] + 1))
